@@ -6,7 +6,7 @@
    serialised store parses (proved for framed decoders: C08_prefix_fact_for_framed_decoders).
    crash_states_c w ub prog 0 s = every file-system state in which the process can die while prog writes payload w:
    before and after each operation and after every byte prefix of every write. *)
-From QT Require Import C08.Spec C08.Check C08.AbsThm C08.GenOk C08.Framing C08.FramingThm Gen.C08Gen.
+From QT Require Import C08.Spec C08.Check C08.AbsThm C08.Oper C08.OperThm C08.GenOk C08.Framing C08.FramingThm Gen.C08Gen.
 
 (* a crash at any point of a save leaves files from which a restart loads exactly the pre- or exactly the post-state
    (never a failure, never a partial or empty store unless that is pre or post), and which again hold that state *)
@@ -79,6 +79,54 @@ Proof.
 Qed.
 Print Assumptions C08_histories_durable.
 
+(* OPERATIONS.  op_trees is the control skeleton of every method of the driver that saves (insert, update, replace, remove),
+   regenerated from json.py; a path p through it is a sequence of in-memory changes (chg i: arbitrary, e.g. a loop removing
+   many records) and saves.  Whatever the in-memory changes are, a crash at any point of the whole operation (inside its
+   save: at any file operation and any byte prefix) restarts with exactly the store from before the operation or exactly the
+   store after it - in particular never with only some of the records of a multi-record update/remove changed *)
+Theorem C08_operation_atomic :
+  forall (data : Type) (ser : data -> bytes) (parse : bytes -> option data) (d_empty : data),
+    (forall d, parse (ser d) = Some d) ->
+    parse [] = None ->
+    (forall d k, (0 < k < List.length (ser d))%nat -> parse (firstn k (ser d)) = None) ->
+    forall (chg : nat -> data -> data) (name : string) (t : oprog) (p : list ostep * bool),
+      In (name, t) op_trees -> In p (paths t) ->
+      forall (use_backup : bool) (pre : data) (i : nat) (s s' : fs bytes),
+        let post := op_mem data chg (fst p) i pre in
+        holds data ser d_empty use_backup pre s ->
+        In s' (op_crash_states data ser chg save_prog use_backup (fst p) i pre s) ->
+        (load_c data parse d_empty use_backup load_prog s' = LOk pre /\ holds data ser d_empty use_backup pre s')
+        \/ (load_c data parse d_empty use_backup load_prog s' = LOk post /\ holds data ser d_empty use_backup post s').
+Proof.
+  exact (fun data ser parse d_empty H1 H2 H3 chg name t p Ht Hp ub pre i s s' =>
+           op_crash_atomic data ser parse d_empty H1 H2 H3 chg save_prog load_prog save_load_check ub pre (fst p)
+             (tree_ok_path t p (op_tree_ok name t Ht) Hp) i pre s s').
+Qed.
+Print Assumptions C08_operation_atomic.
+
+(* an operation that saves and is not interrupted is acknowledged only after its single save completed: a restart then
+   loads the store after the operation *)
+Theorem C08_operation_durable :
+  forall (data : Type) (ser : data -> bytes) (parse : bytes -> option data) (d_empty : data),
+    (forall d, parse (ser d) = Some d) ->
+    parse [] = None ->
+    (forall d k, (0 < k < List.length (ser d))%nat -> parse (firstn k (ser d)) = None) ->
+    forall (chg : nat -> data -> data) (name : string) (t : oprog) (p : list ostep * bool),
+      In (name, t) op_trees -> In p (paths t) ->
+      existsb (fun st => match st with OSave => true | OMem => false end) (fst p) = true ->
+      forall (use_backup : bool) (pre : data) (i : nat) (s : fs bytes),
+        let post := op_mem data chg (fst p) i pre in
+        holds data ser d_empty use_backup pre s ->
+        exists s', op_run data ser chg save_prog use_backup (fst p) i pre s = Some s'
+                   /\ holds data ser d_empty use_backup post s'
+                   /\ load_c data parse d_empty use_backup load_prog s' = LOk post.
+Proof.
+  exact (fun data ser parse d_empty H1 H2 H3 chg name t p Ht Hp Hs ub pre i s =>
+           op_durable data ser parse d_empty H1 H2 H3 chg save_prog load_prog save_load_check ub pre (fst p)
+             (tree_ok_path t p (op_tree_ok name t Ht) Hp) Hs i pre s).
+Qed.
+Print Assumptions C08_operation_durable.
+
 (* the prefix premise, proved for the shape of the driver's file: a decoder that accepts only texts whose nesting depth
    closes exactly at the last byte (one top-level object, nothing after it) rejects every proper non-empty prefix *)
 Theorem C08_prefix_fact_for_framed_decoders :
@@ -101,7 +149,9 @@ Example C08_nonvacuous :
      holds nat toy_ser O true 2%nat s
      /\ existsb (loads 2%nat) cs = true /\ existsb (loads 3%nat) cs = true
      /\ existsb (fun s' => partial (fdata s') || partial (fbackup s') || partial (ftemp s')) cs = true
-     /\ forallb (fun s' => loads 2%nat s' || loads 3%nat s') cs = true.
+     /\ forallb (fun s' => loads 2%nat s' || loads 3%nat s') cs = true
+     /\ forallb (fun m => existsb (fun nt : string * oprog => String.eqb (fst nt) m && has_save (snd nt)) op_trees)
+                 ["insert"%string; "update"%string; "replace"%string; "remove"%string] = true.
 Proof.
   split; [exact toy_parse_ser|]. split; [exact toy_parse_nil|]. split; [exact toy_parse_prefix|].
   split; [left; reflexivity|]. vm_compute. repeat split.
